@@ -36,6 +36,13 @@ pub struct ClosedPartitionIndex {
 }
 
 impl ClosedPartitionIndex {
+    /// A probe that tells whether the background flush started by `close` has written
+    /// the index file.
+    pub fn flushed_probe(&self) -> impl FnMut() -> bool + Send + 'static {
+        let mut index = self.index.clone();
+        move || matches!(**index.load(), ClosedIndex::Mphf { .. })
+    }
+
     pub(super) fn new(
         id: BucketSegmentId,
         file: File,
